@@ -36,7 +36,7 @@ DimBound == DimBoundP /\ (Strict => DimBoundS)
 (* block sparsity of both factors under the RETURNED intermediate charges (sf / ss: 0/1 supports) *)
 SparseFactors == /\ \A r \in 1..Rec.m, k \in 1..Dl : Rec.sf[r][k] = 1 => Rec.q0[r] = Rec.qi[k]
                  /\ \A k \in 1..Dl, c \in 1..Rec.n : Rec.ss[k][c] = 1 => Rec.qi[k] = Rec.q1[c]
-NumericOK == Rec.resid_ok /\ Rec.iso_ok /\ Rec.dtype_ok
+NumericOK == Rec.resid_ok /\ Rec.iso_ok /\ (Strict => Rec.dtype_ok)       \* dtype of the factors (real for real input, never integer): what the code does
 
 (* exact identities on monomial instances *)
 ExactProduct == \A r \in 1..Rec.m, c \in 1..Rec.n :
@@ -100,7 +100,8 @@ Diagnose ==
          ELSE IF Strict /\ (~DimBound) THEN "spec: intermediate dimension exceeds the block-wise bound"
          ELSE IF ~SparseFactors THEN "a factor is not block sparse under the returned intermediate charges"
          ELSE IF IsDummyCall /\ ~(Dl = 1 /\ \A c \in 1..Rec.n : Rec.ss[1][c] = 0) THEN "dummy bond malformed"
-         ELSE IF ~NumericOK THEN "residual / isometry defect / dtype out of bounds (mode N)"
+         ELSE IF ~(Rec.resid_ok /\ Rec.iso_ok) THEN "residual / isometry defect out of bounds (mode N)"
+         ELSE IF Strict /\ ~Rec.dtype_ok THEN "spec: dtype of the factors (complex factors for real input, or integer factors)"
          ELSE IF Rec.exact /\ ~ExactProduct THEN "Q R # A exactly"
          ELSE IF Rec.exact /\ ~ExactIsometry THEN "Q^H Q # 1 exactly"
          ELSE IF Dl < 1 THEN "no intermediate state"
@@ -112,7 +113,8 @@ Diagnose ==
          ELSE IF ~(IsDummyCall \/ Rec.allzero \/ DimBoundP) THEN "intermediate dimension exceeds the smaller matrix dimension"
          ELSE IF Strict /\ (~(IsDummyCall \/ Rec.allzero \/ DimBound)) THEN "spec: intermediate dimension exceeds the block-wise bound"
          ELSE IF ~Rec.s_positive THEN "non-positive singular value returned"
-         ELSE IF ~NumericOK THEN "error identity / tolerance bound / maximality / isometry out of bounds (mode N)"
+         ELSE IF ~(Rec.resid_ok /\ Rec.iso_ok) THEN "error identity / tolerance bound / maximality / isometry out of bounds (mode N)"
+         ELSE IF Strict /\ ~Rec.dtype_ok THEN "spec: dtype of the factors (complex factors for real input, or integer factors)"
          ELSE IF Rec.exact /\ ~KeepAllowed(Rec.allw, [k \in 1..Dl |-> Rec.sv[k] * Rec.sv[k]], Rec.tn, Rec.td) THEN "kept singular values are not the ones prescribed by the tolerance rule"
          ELSE IF Rec.exact /\ ~ExactSvdError THEN "|| A - u s v ||^2 # discarded weight exactly"
          ELSE "isometry / charge bookkeeping of the kept values")
